@@ -237,7 +237,7 @@ def main(argv):
     replay_paths = []
     if new:
         rc = 1
-        rdir = os.path.join(VERIF, "replays", prop)
+        rdir = os.path.join(os.environ.get("VF_REPLAY_DIR", os.path.join(VERIF, "replays")), prop)
         os.makedirs(rdir, exist_ok=True)
         for k, v in new.items():
             path = os.path.join(rdir, "%s.json" % h(k))
@@ -256,7 +256,8 @@ def main(argv):
             prop, tier, evaluations, len(nontrivial)))
 
     wall = time.monotonic() - t0
-    if tier_for_evidence:
+    foreign_repo = os.path.realpath(os.environ.get("VF_REPO", "/repo")) != "/repo"
+    if tier_for_evidence and not foreign_repo:
         ev = {
             "property_id": prop,
             "tier": tier,
